@@ -102,6 +102,24 @@ def run(ctx):
     r.check(ok, "%s#own-response" % sr.qname, "bootstrap protocol does not fire the Deferred stored under the frame's id with that frame",
             where(sr, sr.node))
 
+    # a request whose write raises (whatever the transport raises) is removed and failed: the handler around the write is a catch-all
+    srq = ctx.func(BC + "._sendRequest")
+    csr = ctx.cfg(srq)
+    wn = [n for n in csr.nodes if any(call_name(c) == "sendString" for c in n.calls())]
+    hs_ = [n for n in csr.nodes if n.kind == "except"]
+    okw = bool(wn) and bool(hs_) and all(h.stmt.type is None or norm(h.stmt.type) in ("Exception", "BaseException") for h in hs_) and any(
+        lab == ("exc",) and t in [h.id for h in hs_] for t, lab in csr.succ[wn[0].id])
+    if okw:
+        arm = csr.reach([hs_[0].id])
+        okw = any(any(call_name(c) == "errback" for c in csr.nodes[i].calls()) for i in arm) and any(
+            isinstance(csr.nodes[i].stmt, ast.Delete) or any(call_name(c) in ("pop", "popitem") for c in csr.nodes[i].calls()) for i in arm if csr.nodes[i].stmt is not None)
+    r2b = ctx.rule("R9", "a request whose write fails for any reason is removed from the table and failed", 1, "B")
+    r2b.check(okw, "%s#write-failure-fails-request" % srq.qname,
+              "an exception raised while writing the request is handled only for %s (or the handler does not remove and fail the request)" % [
+                  norm(h.stmt.type) if h.stmt.type is not None else "everything" for h in hs_], where(srq, srq.node),
+              "a request whose write raises anything else never completes, stays in the table, and the exception escapes into the "
+              "connect chain: the requests queued behind it are not written on the connection that just came up")
+
     # ---- R3 id offsets
     r = ctx.rule("R3", "correlation-id slices agree with the header layouts (request offset 4, response offset 0)", 3, "F")
     hdr = ctx.func("kafkacodec:KafkaCodec._encode_message_header")
